@@ -139,11 +139,13 @@ def build_tools():
 # ----------------------------------------------------------------------------- sanitizer reports
 
 FRAME_RE = re.compile(r'#\d+ 0x[0-9a-f]+ in (.+?) (/[^\s:]+)(?::\d+)?(?::\d+)?')
+# TSan prints frames as "#0 func /path:line (binary+0x..)"
+TSAN_FRAME_RE = re.compile(r'#\d+ (.+?) (/[^\s:]+)(?::\d+)* \(')
 
 
-def _frames(text, limit=3):
+def _frames(text, limit=3, tsan=False):
     out = []
-    for m in FRAME_RE.finditer(text):
+    for m in (TSAN_FRAME_RE if tsan else FRAME_RE).finditer(text):
         func, path = m.group(1), m.group(2)
         func = re.sub(r'\(.*', '', func)
         func = re.sub(r'<.*>', '<>', func)
@@ -164,7 +166,7 @@ def parse_sanitizer(stderr_text):
     for m in re.finditer(r'WARNING: ThreadSanitizer: ([^\(\n]+)', stderr_text):
         seg = stderr_text[m.start():m.start() + 8000]
         kind = m.group(1).strip().replace(' ', '-')
-        res.append(('tsan:%s:%s' % (kind, '/'.join(_frames(seg, 2))), seg[:4000]))
+        res.append(('tsan:%s:%s' % (kind, '/'.join(_frames(seg, 2, tsan=True))), seg[:4000]))
         break
     m = re.search(r'([^\s:]+):\d+:\d+: runtime error: ([^\n]+)', stderr_text)
     if m:
